@@ -34,9 +34,12 @@ FLUENT_POOLS = [
     ["(fuel-cost ?x)", "(fuelcost ?x)", "(g)", "(f ?x)"],  # collide once ( ) - ? and blanks are deleted
     ["(a b)", "(ab)", "(f ?x)", "(g)"],
     ["(f ?x1)", "(f1 ?x)", "(h ?x ?y)", "(g)"],
+    # fluents whose text, once the punctuation is deleted, is the name of a sympy function: fu, beta, gamma, zeta
+    ["(f ?u)", "(beta ?x)", "(gamma)", "(zeta ?x)"],
 ]
 
-SIGS = {"f": 1, "g": 0, "fuel-cost": 1, "load_limit": 1, "f2": 1, "h": 2, "fuelcost": 1, "a": 1, "ab": 0, "f1": 1}
+SIGS = {"f": 1, "g": 0, "fuel-cost": 1, "load_limit": 1, "f2": 1, "h": 2, "fuelcost": 1, "a": 1, "ab": 0, "f1": 1,
+        "beta": 1, "gamma": 0, "zeta": 1}
 
 
 def functions():
